@@ -228,15 +228,228 @@ fn dynamic_cycle(n: usize, load: bool, via_indy: bool) -> Vec<u8> {
 
 /// a finite chain: constant i has constant i+1 as its bootstrap argument, the last one an Integer
 fn dynamic_chain(n: usize) -> Vec<u8> {
+	dynamic_chain_at(n, false)
+}
+
+/// the chain loaded by ldc_w, or reached as the bootstrap argument of an invokedynamic
+fn dynamic_chain_at(n: usize, via_indy: bool) -> Vec<u8> {
 	let mut cf = Cf::new();
 	let h = bsm_handle(&mut cf);
 	let nt = cf.nat("k", "Ljava/lang/Object;");
 	let last = cf.int(7);
 	let dyns: Vec<u16> = (0..n).map(|i| cf.idx2(17, i as u16, nt)).collect();
-	let methods: Vec<(u16, Vec<u16>)> = (0..n).map(|i| (h, vec![if i + 1 < n { dyns[i + 1] } else { last }])).collect();
-	let code = ldc_w(dyns[0]);
+	let mut methods: Vec<(u16, Vec<u16>)> = (0..n).map(|i| (h, vec![if i + 1 < n { dyns[i + 1] } else { last }])).collect();
+	let mut code = ldc_w(dyns[0]);
+	if via_indy {
+		let mnt = cf.nat("run", "()V");
+		methods.push((h, vec![dyns[0]]));
+		let indy = cf.idx2(18, n as u16, mnt);
+		code = vec![0xba];
+		code.extend(be16(indy));
+		code.extend([0, 0, RETURN]);
+	}
 	let bs = bootstrap_attr(&mut cf, &methods);
 	class_with_code(cf, code.len() as u32, &code, &[], &[], vec![bs])
+}
+
+/// a dynamic constant whose only bootstrap argument is a dynamic constant with `k` Integer arguments: exactly `k`
+/// arguments of nested constants are resolved (the reader bounds their number per class file)
+fn dynamic_nested_arguments(k: usize, via_indy: bool) -> Vec<u8> {
+	let mut cf = Cf::new();
+	let h = bsm_handle(&mut cf);
+	let nt = cf.nat("k", "Ljava/lang/Object;");
+	let last = cf.int(7);
+	let outer = cf.idx2(17, 0, nt);
+	let inner = cf.idx2(17, 1, nt);
+	let mut methods: Vec<(u16, Vec<u16>)> = vec![(h, vec![inner]), (h, vec![last; k])];
+	let mut code = ldc_w(outer);
+	if via_indy {
+		let mnt = cf.nat("run", "()V");
+		methods.push((h, vec![outer]));
+		let indy = cf.idx2(18, 2, mnt);
+		code = vec![0xba];
+		code.extend(be16(indy));
+		code.extend([0, 0, RETURN]);
+	}
+	let bs = bootstrap_attr(&mut cf, &methods);
+	class_with_code(cf, code.len() as u32, &code, &[], &[], vec![bs])
+}
+
+/// Tables of one kind given in several attributes of one Code (legal; the reader merges them into one list, which can
+/// then hold more entries than the count field of one table can state). `kind`: 0 LineNumberTable, 1 LocalVariableTable,
+/// 2 LocalVariableTypeTable; `counts` = entries per attribute, in file order.
+fn merged_tables(kinds: &[(u8, usize)]) -> Vec<u8> {
+	let mut cf = Cf::new();
+	let names = [cf.utf8(b"LineNumberTable"), cf.utf8(b"LocalVariableTable"), cf.utf8(b"LocalVariableTypeTable")];
+	let nm = cf.utf8(b"x");
+	let ds = cf.utf8(b"I");
+	let sg = cf.utf8(b"TT;");
+	let code = nops(8);
+	let mut attrs = Vec::new();
+	let mut serial = 0usize;
+	for &(kind, count) in kinds {
+		let mut b = Vec::with_capacity(2 + count * 10);
+		b.extend(be16(count as u16));
+		for _ in 0..count {
+			if kind == 0 {
+				b.extend(be16((serial % 8) as u16));
+				b.extend(be16((serial % 60_000) as u16 + 1));
+			} else {
+				b.extend(be16(0));
+				b.extend(be16(8));
+				b.extend(be16(nm));
+				b.extend(be16(if kind == 1 { ds } else { sg }));
+				b.extend(be16((serial % 65_536) as u16));
+			}
+			serial += 1;
+		}
+		attrs.push(attr(names[kind as usize], &b));
+	}
+	class_with_code(cf, code.len() as u32, &code, &[], &attrs, vec![])
+}
+
+/// `n` attributes `x.U` without content at one level, plus Deprecated and Synthetic where they are flags of the tree
+fn many_attributes(n: usize, at: Level, flags_too: bool) -> Vec<u8> {
+	let mut cf = Cf::new();
+	let an = cf.utf8(b"x.U");
+	let dep = cf.utf8(b"Deprecated");
+	let syn = cf.utf8(b"Synthetic");
+	let mut list: Vec<Vec<u8>> = Vec::with_capacity(n);
+	if flags_too {
+		list.push(attr(dep, &[]));
+		list.push(attr(syn, &[]));
+	}
+	while list.len() < n {
+		list.push(attr(an, &[]));
+	}
+	let fname = cf.utf8(b"f");
+	let fdesc = cf.utf8(b"I");
+	let mut parts = ClassParts::default();
+	match at {
+		Level::Class => parts.attrs = list,
+		Level::Field => parts.fields.push(Member { access: 1, name: fname, desc: fdesc, attrs: list }),
+		Level::Method => {
+			let d = cf.utf8(b"()V");
+			parts.methods.push(Member { access: 0x0401, name: fname, desc: d, attrs: list });
+		},
+		Level::Code => return class_with_code(cf, 1, &[RETURN], &[], &list, vec![]),
+		Level::Record => {
+			let rec = cf.utf8(b"Record");
+			let mut b = Vec::new();
+			b.extend(be16(1));
+			b.extend(be16(fname));
+			b.extend(be16(fdesc));
+			b.extend(be16(list.len() as u16));
+			for a in &list {
+				b.extend_from_slice(a);
+			}
+			parts.attrs.push(attr(rec, &b));
+		},
+	}
+	finish(cf, parts)
+}
+
+/// `n` members of one kind (0 interfaces, 1 fields, 2 methods), all different
+fn many_members(kind: u8, n: usize) -> Vec<u8> {
+	let mut cf = Cf::new();
+	let mut parts = ClassParts::default();
+	match kind {
+		0 => {
+			let u = cf.utf8(b"p/I");
+			let c = cf.idx1(7, u);
+			parts.interfaces = vec![c; n];
+		},
+		_ => {
+			// 257 names x 255 descriptors (int arrays of 1..=255 dimensions): 65535 different members from 512 constants
+			let names: Vec<u16> = (0..257).map(|i| cf.utf8(format!("m{i}").as_bytes())).collect();
+			let descs: Vec<u16> = (0..255).map(|j| {
+				let d = format!("{}I", "[".repeat(j + 1));
+				cf.utf8(if kind == 2 { format!("(){d}") } else { d }.as_bytes())
+			}).collect();
+			for i in 0..n {
+				let m = Member { access: if kind == 2 { 0x0401 } else { 1 }, name: names[(i / 255) % 257], desc: descs[i % 255], attrs: vec![] };
+				if kind == 1 { parts.fields.push(m) } else { parts.methods.push(m) }
+			}
+		},
+	}
+	finish(cf, parts)
+}
+
+/// A class that uses every slot of a constant pool of `count` slots (`constant_pool_count` = `count`): an annotation with an
+/// array of `k` different int (or, `wide`, long) constants; the writer needs exactly as many constants as the file has.
+fn full_pool(count: usize, wide: bool) -> Vec<u8> {
+	let mut cf = Cf::new();
+	let ty = cf.utf8(b"Lp/A;");
+	let nm = cf.utf8(b"v");
+	let rva = cf.utf8(b"RuntimeVisibleAnnotations");
+	// finish() adds four more entries: 1 (slot 0) + 3 + 4 + values = count
+	let free = count.saturating_sub(8);
+	let k = if wide { free / 2 } else { free };
+	let mut ev = vec![b'['];
+	ev.extend(be16((k + (wide && free % 2 == 1) as usize) as u16));
+	for i in 0..k {
+		let c = if wide {
+			let mut b = vec![5u8];
+			b.extend((i as i64).to_be_bytes());
+			cf.push(b, 2)
+		} else {
+			cf.int(i as i32)
+		};
+		ev.push(if wide { b'J' } else { b'I' });
+		ev.extend(be16(c));
+	}
+	if wide && free % 2 == 1 {
+		let c = cf.int(-1);
+		ev.push(b'I');
+		ev.extend(be16(c));
+	}
+	let mut ann = Vec::new();
+	ann.extend(be16(1));
+	ann.extend(be16(ty));
+	ann.extend(be16(1));
+	ann.extend(be16(nm));
+	ann.extend_from_slice(&ev);
+	finish(cf, ClassParts { attrs: vec![attr(rva, &ann)], ..Default::default() })
+}
+
+/// Code that grows when it is written again: `ldc` instructions of a constant that has a one-byte index in the file but
+/// (300 fields come first in the writer's pool) needs `ldc_w` when written, between a branch and its target, so that an
+/// offset that fits 16 bits in the file does not fit any more and the writer has to replace the branch by a wider sequence.
+/// Layout: `a` ldc, [target of the backward branch] `b` ldc, `p` nop, the branch; forward: the branch first, its target last.
+fn growing_code(opcode: u8, a: usize, b: usize, p: usize, forward: bool) -> Vec<u8> {
+	let mut cf = Cf::new();
+	let int = cf.int(0x1234_5678);
+	let fdesc = cf.utf8(b"I");
+	let mut parts = ClassParts::default();
+	for i in 0..300 {
+		let name = cf.utf8(format!("f{i}").as_bytes());
+		parts.fields.push(Member { access: 1, name, desc: fdesc, attrs: vec![] });
+	}
+	let ldc = [0x12u8, int as u8];
+	let mut c = Vec::with_capacity(2 * (a + b) + p + 8);
+	for _ in 0..a {
+		c.extend(ldc);
+	}
+	let span = 2 * b + p;
+	if forward {
+		c.push(opcode);
+		c.extend(be16((3 + span) as u16));
+	}
+	for _ in 0..b {
+		c.extend(ldc);
+	}
+	c.extend(vec![NOP; p]);
+	if !forward {
+		c.push(opcode);
+		c.extend(be16((span as u16).wrapping_neg()));
+	}
+	c.push(RETURN);
+	let name = cf.utf8(b"m");
+	let desc = cf.utf8(b"()V");
+	let code_name = cf.utf8(b"Code");
+	let body = code_body(4, 4, c.len() as u32, &c, &[], &[]);
+	parts.methods.push(Member { access: 0x0009, name, desc, attrs: vec![attr(code_name, &body)] });
+	finish(cf, parts)
 }
 
 /// an acyclic graph with fan-out: constant i names constant i+1 `fan` times as bootstrap argument, the last one an
@@ -288,21 +501,85 @@ fn nested_element_value(kind: u8, depth: usize, type_idx: u16, name_idx: u16) ->
 	b
 }
 
+/// An element value nested `depth` deep along the periodic word `word` over {b'@', b'['}: level i is an annotation
+/// (`@`, its one pair holds the next level) or an array (`[`, its one element is the next level); the innermost level is an
+/// empty container of its kind. After an `@` the reader is in its named-pairs routine, after a `[` in its unnamed-values
+/// routine, so the words of length <= 3 pass through every ordered pair (and triple) of the four recursion sites.
+/// `sibling`: 0 = the nested value is alone in its parent, 1 = an int constant comes before it, 2 = one comes after it.
+fn mixed_element_value(word: &[u8], depth: usize, sibling: u8, type_idx: u16, name_idx: u16, int_idx: u16) -> Vec<u8> {
+	let kind = |i: usize| word[i % word.len()];
+	let int_value = |b: &mut Vec<u8>| {
+		b.push(b'I');
+		b.extend(be16(int_idx));
+	};
+	let mut b = Vec::with_capacity(depth * 14 + 8);
+	for i in 0..depth {
+		let n = if sibling == 0 { 1 } else { 2 };
+		if kind(i) == b'@' {
+			b.push(b'@');
+			b.extend(be16(type_idx));
+			b.extend(be16(n));
+			if sibling == 1 {
+				b.extend(be16(name_idx));
+				int_value(&mut b);
+			}
+			b.extend(be16(name_idx));
+		} else {
+			b.push(b'[');
+			b.extend(be16(n));
+			if sibling == 1 {
+				int_value(&mut b);
+			}
+		}
+	}
+	if kind(depth) == b'@' {
+		b.push(b'@');
+		b.extend(be16(type_idx));
+		b.extend(be16(0));
+	} else {
+		b.push(b'[');
+		b.extend(be16(0));
+	}
+	if sibling == 2 {
+		for i in (0..depth).rev() {
+			if kind(i) == b'@' {
+				b.extend(be16(name_idx));
+			}
+			int_value(&mut b);
+		}
+	}
+	b
+}
+
 #[derive(Clone, Copy)]
 enum Where {
 	Class,
+	ClassInvisible,
 	Field,
 	Method,
 	Default,
+	ClassType,
 	FieldType,
+	MethodType,
+	CodeType,
 	Record,
+	RecordType,
 }
 
-fn nesting_class(kind: u8, depth: usize, at: Where) -> Vec<u8> {
+const WHERE_ALL: [(Where, &str); 11] = [
+	(Where::Class, "class"), (Where::ClassInvisible, "class-invisible"), (Where::Field, "field"), (Where::Method, "method"), (Where::Default, "annotation-default"),
+	(Where::ClassType, "class-type-annotation"), (Where::FieldType, "field-type-annotation"), (Where::MethodType, "method-type-annotation"), (Where::CodeType, "code-type-annotation"),
+	(Where::Record, "record-component"), (Where::RecordType, "record-component-type-annotation"),
+];
+
+/// a class with one annotation `@Lp/A;(v = <element value>)` (or the bare element value as an AnnotationDefault) at `at`;
+/// `make` gets the pool indices of the annotation type, of the element name and of an Integer constant
+fn annotated_class(at: Where, make: impl Fn(u16, u16, u16) -> Vec<u8>) -> Vec<u8> {
 	let mut cf = Cf::new();
 	let ty = cf.utf8(b"Lp/A;");
 	let nm = cf.utf8(b"v");
-	let ev = nested_element_value(kind, depth, ty, nm);
+	let int = cf.int(7);
+	let ev = make(ty, nm, int);
 	// annotations attribute: num=1, annotation { type, 1 pair { name, value } }
 	let mut ann = Vec::new();
 	ann.extend(be16(1));
@@ -310,42 +587,69 @@ fn nesting_class(kind: u8, depth: usize, at: Where) -> Vec<u8> {
 	ann.extend(be16(1));
 	ann.extend(be16(nm));
 	ann.extend_from_slice(&ev);
+	let type_ann = |target: &[u8]| {
+		let mut b = Vec::new();
+		b.extend(be16(1));
+		b.extend_from_slice(target);
+		b.push(0); // path length
+		b.extend_from_slice(&ann[2..]);
+		b
+	};
 	let rva = cf.utf8(b"RuntimeVisibleAnnotations");
+	let ria = cf.utf8(b"RuntimeInvisibleAnnotations");
+	let rvta = cf.utf8(b"RuntimeVisibleTypeAnnotations");
+	let rita = cf.utf8(b"RuntimeInvisibleTypeAnnotations");
 	let fname = cf.utf8(b"f");
 	let fdesc = cf.utf8(b"I");
 	let mname = cf.utf8(b"value");
 	let mdesc = cf.utf8(b"()I");
 	let mut parts = ClassParts::default();
+	let record = |cf: &mut Cf, a: Vec<u8>| {
+		let rec = cf.utf8(b"Record");
+		let mut b = Vec::new();
+		b.extend(be16(1));
+		b.extend(be16(fname));
+		b.extend(be16(fdesc));
+		b.extend(be16(1));
+		b.extend_from_slice(&a);
+		attr(rec, &b)
+	};
 	match at {
 		Where::Class => parts.attrs.push(attr(rva, &ann)),
+		Where::ClassInvisible => parts.attrs.push(attr(ria, &ann)),
 		Where::Field => parts.fields.push(Member { access: 1, name: fname, desc: fdesc, attrs: vec![attr(rva, &ann)] }),
 		Where::Method => parts.methods.push(Member { access: 0x0401, name: mname, desc: mdesc, attrs: vec![attr(rva, &ann)] }),
 		Where::Default => {
 			let ad = cf.utf8(b"AnnotationDefault");
 			parts.methods.push(Member { access: 0x0401, name: mname, desc: mdesc, attrs: vec![attr(ad, &ev)] });
 		},
-		Where::FieldType => {
-			let rvta = cf.utf8(b"RuntimeInvisibleTypeAnnotations");
-			let mut b = Vec::new();
-			b.extend(be16(1));
-			b.push(0x13); // field target, empty
-			b.push(0); // path length
-			b.extend_from_slice(&ann[2..]);
-			parts.fields.push(Member { access: 1, name: fname, desc: fdesc, attrs: vec![attr(rvta, &b)] });
-		},
+		// class_extends of the super class, field, method return, `new` at offset 0
+		Where::ClassType => parts.attrs.push(attr(rvta, &type_ann(&[0x10, 0xff, 0xff]))),
+		Where::FieldType => parts.fields.push(Member { access: 1, name: fname, desc: fdesc, attrs: vec![attr(rita, &type_ann(&[0x13]))] }),
+		Where::MethodType => parts.methods.push(Member { access: 0x0401, name: mname, desc: mdesc, attrs: vec![attr(rvta, &type_ann(&[0x14]))] }),
+		Where::CodeType => return class_with_code(cf, 1, &[RETURN], &[], &[attr(rita, &type_ann(&[0x44, 0, 0]))], vec![]),
 		Where::Record => {
-			let rec = cf.utf8(b"Record");
-			let mut b = Vec::new();
-			b.extend(be16(1));
-			b.extend(be16(fname));
-			b.extend(be16(fdesc));
-			b.extend(be16(1));
-			b.extend_from_slice(&attr(rva, &ann));
-			parts.attrs.push(attr(rec, &b));
+			let a = record(&mut cf, attr(rva, &ann));
+			parts.attrs.push(a);
+		},
+		Where::RecordType => {
+			let a = record(&mut cf, attr(rvta, &type_ann(&[0x13])));
+			parts.attrs.push(a);
 		},
 	}
 	finish(cf, parts)
 }
+
+fn nesting_class(kind: u8, depth: usize, at: Where) -> Vec<u8> {
+	annotated_class(at, |ty, nm, _| nested_element_value(kind, depth, ty, nm))
+}
+
+fn mixed_nesting_class(word: &'static [u8], depth: usize, sibling: u8, at: Where) -> Vec<u8> {
+	annotated_class(at, |ty, nm, int| mixed_element_value(word, depth, sibling, ty, nm, int))
+}
+
+/// the words of length 1..=3 over {`@`, `[`}
+const NESTING_WORDS: [&[u8]; 14] = [b"@", b"[", b"@@", b"@[", b"[@", b"[[", b"@@@", b"@@[", b"@[@", b"@[[", b"[@@", b"[@[", b"[[@", b"[[["];
 
 fn field_with_descriptor(desc: &[u8]) -> Vec<u8> {
 	let mut cf = Cf::new();
@@ -730,6 +1034,24 @@ fn enigma_nesting(depth: usize) -> Vec<u8> {
 	b
 }
 
+/// nested classes, each with a comment, a field and a method with a parameter before the class nested in it
+fn enigma_nesting_with_members(depth: usize) -> Vec<u8> {
+	let mut b = Vec::with_capacity(depth * depth * 3 + depth * 64);
+	let mut line = |d: usize, text: &[u8]| {
+		b.extend(std::iter::repeat(b'\t').take(d));
+		b.extend_from_slice(text);
+		b.push(b'\n');
+	};
+	for d in 0..depth {
+		line(d, b"CLASS a b");
+		line(d + 1, b"COMMENT c");
+		line(d + 1, b"FIELD f g I");
+		line(d + 1, b"METHOD m n (I)V");
+		line(d + 2, b"ARG 1 p");
+	}
+	b
+}
+
 fn repeat_line(line: &[u8], n: usize, vary: bool) -> Vec<u8> {
 	let mut b = Vec::with_capacity((line.len() + 8) * n);
 	for i in 0..n {
@@ -819,6 +1141,73 @@ pub fn adversaries(thorough: bool) -> Vec<Adversary> {
 			for (at, an) in [(Where::Class, "class"), (Where::Field, "field"), (Where::Method, "method"), (Where::Default, "annotation-default"), (Where::FieldType, "field-type-annotation"), (Where::Record, "record-component")] {
 				adv(&mut v, format!("element-value-nesting/{kn}-depth-{depth}-on-{an}"), c, move || nesting_class(kind, depth, at));
 			}
+		}
+	}
+	// mixed nesting: every periodic word of length <= 3 over {annotation, array} at every place an element value can stand,
+	// deep (a guard that one of the four recursion sites resets is only seen on a mix) ...
+	for &depth in depths.iter().filter(|d| **d >= 100_000) {
+		for word in NESTING_WORDS.iter().filter(|w| w.len() > 1) {
+			for (at, an) in WHERE_ALL {
+				adv(&mut v, format!("element-value-nesting/mixed-{}-depth-{depth}-on-{an}", String::from_utf8_lossy(word)), c, move || mixed_nesting_class(word, depth, 1, at));
+			}
+		}
+	}
+	// nesting of dynamic constants around the reader's bounds (depth 256; 32768 resolved arguments of nested constants)
+	for n in [254usize, 255, 256, 257, 258] {
+		for via in [false, true] {
+			adv(&mut v, format!("dynamic-chain/depth-{n}{}", if via { "/argument-of-invokedynamic" } else { "/loaded-by-ldc" }), c, move || dynamic_chain_at(n, via));
+		}
+	}
+	for k in [1usize, 32_766, 32_767, 32_768, 32_769, 65_535] {
+		for via in [false, true] {
+			adv(&mut v, format!("dynamic-nested-arguments/{k}{}", if via { "/argument-of-invokedynamic" } else { "/loaded-by-ldc" }), c, move || dynamic_nested_arguments(k, via));
+		}
+	}
+	// tables the reader merges from several attributes: exactly as many entries as a count field can state, and one more
+	for (kind, kn) in [(0u8, "LineNumberTable"), (1, "LocalVariableTable"), (2, "LocalVariableTypeTable")] {
+		for counts in [&[65_535usize][..], &[65_534, 1], &[65_535, 1], &[1, 65_535], &[32_768, 32_768], &[65_535, 65_535], &[0, 0], &[0, 1]] {
+			adv(&mut v, format!("merged-tables/{kn}x{counts:?}"), c, move || merged_tables(&counts.iter().map(|n| (kind, *n)).collect::<Vec<_>>()));
+		}
+	}
+	for (a, b2) in [(65_535usize, 65_535usize), (65_535, 1), (1, 65_535), (0, 65_535), (65_535, 0)] {
+		adv(&mut v, format!("merged-tables/LocalVariableTable[{a}]+LocalVariableTypeTable[{b2}]"), c, move || merged_tables(&[(1, a), (2, b2)]));
+		adv(&mut v, format!("merged-tables/LocalVariableTypeTable[{b2}]+LocalVariableTable[{a}]"), c, move || merged_tables(&[(2, b2), (1, a)]));
+	}
+	adv(&mut v, "merged-tables/LocalVariableTable[40000]+LocalVariableTypeTable[40000]+LocalVariableTable[40000]+LineNumberTable[65535]x2", c, || merged_tables(&[(1, 40_000), (2, 40_000), (1, 40_000), (0, 65_535), (0, 65_535)]));
+	// as many attributes / members as a count can state
+	for (lv, ln) in [(Level::Class, "class"), (Level::Field, "field"), (Level::Method, "method"), (Level::Code, "code"), (Level::Record, "record-component")] {
+		for n in [65_534usize, 65_535] {
+			for flags in [false, true] {
+				adv(&mut v, format!("count-at-its-maximum/{n}-attributes-on-{ln}{}", if flags { "-Deprecated-and-Synthetic-among-them" } else { "" }), c, move || many_attributes(n, lv, flags));
+			}
+		}
+	}
+	for (kind, kn) in [(0u8, "interfaces"), (1, "fields"), (2, "methods")] {
+		for n in [65_534usize, 65_535] {
+			adv(&mut v, format!("count-at-its-maximum/{n}-{kn}"), c, move || many_members(kind, n));
+		}
+	}
+	// every slot of the largest pool in use (a two-slot constant in the last two slots included)
+	for count in [65_533usize, 65_534, 65_535] {
+		for wide in [false, true] {
+			adv(&mut v, format!("pool/every-slot-used/constant_pool_count={count}{}", if wide { ",longs" } else { ",ints" }), c, move || full_pool(count, wide));
+		}
+	}
+	// code that grows when written again, so that a branch has to be replaced by a wider sequence; the replacement at the
+	// very end of the largest method
+	for (op, on) in [(0x99u8, "ifeq"), (0xa7, "goto"), (0xa8, "jsr"), (0xc6, "ifnull"), (0xa5, "if_acmpeq")] {
+		for forward in [false, true] {
+			let dir = if forward { "forward" } else { "backward" };
+			adv(&mut v, format!("writer-code-growth/{on}-{dir}-over-12000-ldc"), c, move || growing_code(op, 10, 12_000, 0, forward));
+			adv(&mut v, format!("writer-code-growth/{on}-{dir}-over-10900-ldc-just-fits"), c, move || growing_code(op, 0, 10_900, 0, forward));
+			adv(&mut v, format!("writer-code-growth/{on}-{dir}-over-10923-ldc"), c, move || growing_code(op, 0, 10_923, 0, forward));
+		}
+		// the branch stands at byte 63000 + p of the written code
+		for p in 2_518..=2_537usize {
+			adv(&mut v, format!("writer-code-growth/{on}-backward-at-the-end-of-the-code,padding={p}"), c, move || growing_code(op, 9_000, 12_000, p, false));
+		}
+		for p in [2_520usize, 2_530] {
+			adv(&mut v, format!("writer-code-growth/{on}-forward-to-the-end-of-the-code,padding={p}"), c, move || growing_code(op, 9_000, 12_000, p, true));
 		}
 	}
 	// descriptors made of brackets
@@ -957,6 +1346,7 @@ pub fn adversaries(thorough: bool) -> Vec<Adversary> {
 	for &d in edepths {
 		adv(&mut v, format!("enigma/class-nesting-depth-{d}"), P::Enigma, move || enigma_nesting(d));
 	}
+	adv(&mut v, "enigma/class-nesting-with-members-depth-1000", P::Enigma, || enigma_nesting_with_members(1000));
 	adv(&mut v, "enigma/100000-classes", P::Enigma, || repeat_line(b"CLASS a{} b{}", 100_000, true));
 	adv(&mut v, "enigma/100000-comment-lines", P::Enigma, || {
 		let mut b = b"CLASS a b\n".to_vec();
@@ -1022,6 +1412,28 @@ pub fn adversaries(thorough: bool) -> Vec<Adversary> {
 		b.extend(vec![b'9'; 1_000_000]);
 		b
 	});
+	v
+}
+
+/// The small adversaries around the bounds of the recursion guards (their own space: thousands of cheap cases).
+pub fn boundary_adversaries() -> Vec<Adversary> {
+	let mut v = Vec::new();
+	let c = P::Class;
+	// ... and around the reader's bound (what it accepts there goes through the writer and is dropped): with the nested
+	// value alone in its parent, after a sibling, before a sibling
+	for depth in [254usize, 255, 256, 257, 258, 300] {
+		for word in NESTING_WORDS {
+			for (at, an) in WHERE_ALL {
+				for sibling in 0..3u8 {
+					adv(&mut v, format!("element-value-nesting/mixed-{}-depth-{depth}-sibling-{sibling}-on-{an}", String::from_utf8_lossy(word)), c, move || mixed_nesting_class(word, depth, sibling, at));
+				}
+			}
+		}
+	}
+	for d in [254usize, 255, 256, 257, 258, 259] {
+		adv(&mut v, format!("enigma/class-nesting-depth-{d}"), P::Enigma, move || enigma_nesting(d));
+		adv(&mut v, format!("enigma/class-nesting-with-members-depth-{d}"), P::Enigma, move || enigma_nesting_with_members(d));
+	}
 	v
 }
 
